@@ -998,6 +998,9 @@ class Occ:
     role: str
     scope: object = None
     stmt: object = None
+    tok_i: int = -1
+    split: bool = False  # the statement was split over continuation lines
+    joined: bool = False  # the statement shares its line with another one (;)
 
     @property
     def end(self):
@@ -1063,8 +1066,9 @@ def render(prog: Program, layout: Layout = PLAIN, suffix=None) -> Rendered:
                     toks = [toks[0].rstrip()] if s.kind != "close-construct" else toks
                 elif style == "joined":
                     toks = ["end" + toks[0][4:]] + list(toks[1:])
-            for t in toks:
+            for ti, t in enumerate(toks):
                 if isinstance(t, Ref):
+                    t._ti = ti
                     pieces.append((_case_id(t.spelling(), layout), t))
                 else:
                     txt = _case_kw(t, layout)
@@ -1087,7 +1091,7 @@ def render(prog: Program, layout: Layout = PLAIN, suffix=None) -> Rendered:
                 # never split inside a character literal piece (pieces are atomic anyway)
                 for txt, ref in pieces[:k]:
                     if ref is not None:
-                        occs.append(Occ(name, len(lines), len(cur), txt, ref.ent, ref.role, s.scope, s))
+                        occs.append(Occ(name, len(lines), len(cur), txt, ref.ent, ref.role, s.scope, s, ref._ti, True, False))
                     cur += txt
                 cur += " &"
                 lines.append(cur)
@@ -1096,20 +1100,20 @@ def render(prog: Program, layout: Layout = PLAIN, suffix=None) -> Rendered:
                 cur = ind + "    " + ("& " if layout.lead_amp else "")
                 for txt, ref in pieces[k:]:
                     if ref is not None:
-                        occs.append(Occ(name, len(lines), len(cur), txt, ref.ent, ref.role, s.scope, s))
+                        occs.append(Occ(name, len(lines), len(cur), txt, ref.ent, ref.role, s.scope, s, ref._ti, True, False))
                     cur += txt
             else:
                 for txt, ref in pieces:
                     if ref is not None:
-                        occs.append(Occ(name, len(lines), len(cur), txt, ref.ent, ref.role, s.scope, s))
+                        occs.append(Occ(name, len(lines), len(cur), txt, ref.ent, ref.role, s.scope, s, ref._ti, False, do_join))
                     cur += txt
                 if do_join:
                     s2 = stmts[i + 1]
                     cur += "; "
-                    for t in s2.toks:
+                    for ti2, t in enumerate(s2.toks):
                         if isinstance(t, Ref):
                             txt = _case_id(t.spelling(), layout)
-                            occs.append(Occ(name, len(lines), len(cur), txt, t.ent, t.role, s2.scope, s2))
+                            occs.append(Occ(name, len(lines), len(cur), txt, t.ent, t.role, s2.scope, s2, ti2, False, True))
                             cur += txt
                         else:
                             cur += _case_kw(t, layout)
